@@ -188,13 +188,17 @@ def run(rep, props, replay=None):
                          {"family": [f1, f2], "n_functions": [n1, n2]}, True))
     # transcendental families: closed forms and orthonormality by quadrature
     fine01 = np.linspace(0, 1, 2001)
-    for grid in (fine01, np.linspace(1, 365, 2001), np.linspace(-2, 5, 2001)):
+    # (the last two grids are NOT equally spaced: the phase is a function of the location, not of the index)
+    for grid in (fine01, np.linspace(1, 365, 2001), np.linspace(-2, 5, 2001), 3.0 * fine01 ** 2 - 1.0,
+                 np.unique(np.concatenate([[0.0, 10.0], np.round(rng.uniform(0, 10, size=1500) * 4096) / 4096]))):
         nfun = 7 if quick else 15
         F = np.asarray(_basis_fourier(grid, nfun), float)
         G = np.trapz(F[:, None, :] * F[None, :, :], grid, axis=2)
         rep.case(("fourier", grid[0], grid[-1]), kind="orthonormality/fourier", sample={"family": "fourier", "interval": [grid[0], grid[-1]]})
         bad = []
-        if np.max(np.abs(G - np.eye(nfun))) > 1e-5:
+        # trapezoid error ~ h_max^2: the tolerance 1e-5 is for 2000 equal steps
+        qtol = 1e-5 * max(1.0, float(np.max(np.diff(grid))) / (float(np.ptp(grid)) / 2000)) ** 2
+        if np.max(np.abs(G - np.eye(nfun))) > qtol:
             bad.append(f"not orthonormal on the interval spanned by the grid (max dev {np.max(np.abs(G - np.eye(nfun))):.3g})")
         L = grid[-1] - grid[0]
         for k in range(nfun):
